@@ -27,6 +27,15 @@ var VerifDir = func() string {
 	return "/verif"
 }()
 
+// OutDir is where evidence and replays are written (VerifDir unless a mutant/seed
+// driver redirects it).
+var OutDir = func() string {
+	if d := os.Getenv("VERIF_OUT_DIR"); d != "" {
+		return d
+	}
+	return VerifDir
+}()
+
 type death struct {
 	Unit   string `json:"unit"`
 	Case   uint64 `json:"case"`
@@ -423,10 +432,10 @@ func ParentMain(id, tier string, seed int64) int {
 		fmt.Fprintf(os.Stderr, "note: violation observed once but not reproduced on replay (state- or runtime-dependent behaviour of the code under test): %s\n", sgn)
 	}
 
-	os.MkdirAll(filepath.Join(VerifDir, "replays"), 0o755)
+	os.MkdirAll(filepath.Join(OutDir, "replays"), 0o755)
 	for _, v := range unknown {
 		h := sha256.Sum256([]byte(v.Sig))
-		path := filepath.Join(VerifDir, "replays", fmt.Sprintf("%s-%s.json", id, hex.EncodeToString(h[:4])))
+		path := filepath.Join(OutDir, "replays", fmt.Sprintf("%s-%s.json", id, hex.EncodeToString(h[:4])))
 		b, _ := json.MarshalIndent(map[string]any{"property": id, "tier": tier, "unit": v.Unit, "case": v.Case,
 			"signature": v.Sig, "detail": v.Detail, "reproduced_on_replay": !notReproduced[v.Sig]}, "", " ")
 		os.WriteFile(path, b, 0o644)
@@ -478,9 +487,9 @@ func ParentMain(id, tier string, seed int64) int {
 		"wall_s":      wall,
 		"violations":  len(unknown),
 	}
-	os.MkdirAll(filepath.Join(VerifDir, "evidence"), 0o755)
+	os.MkdirAll(filepath.Join(OutDir, "evidence"), 0o755)
 	b, _ := json.MarshalIndent(ev, "", " ")
-	if err := os.WriteFile(filepath.Join(VerifDir, "evidence", id+".json"), b, 0o644); err != nil {
+	if err := os.WriteFile(filepath.Join(OutDir, "evidence", id+".json"), b, 0o644); err != nil {
 		fmt.Fprintln(os.Stderr, "INTERNAL: cannot write evidence:", err)
 		return 2
 	}
